@@ -167,18 +167,20 @@ namespace Givaro
     inline E& _axpy (E& r, const E& a, const E& b, const E& c, const E& p)
     {
         C tmp;
+        E ab;
         RecInt::lmul(tmp, a, b);
-        RecInt::mod_n(r, tmp, p);
-        RecInt::add(r, c);
+        RecInt::mod_n(ab, tmp, p);
+        RecInt::add(r, ab, c); // r may be c
         if (r >= p) RecInt::sub(r, p);
         return r;
     }
     template<typename E, typename C, SAME_RECINT>
     inline E& _axpy (E& r, const E& a, const E& b, const E& c, const E& p)
     {
-        RecInt::copy(r, c);
-        RecInt::addmul(r, a, b);
-        RecInt::mod_n(r, p);
+        E tmp; // r may be a or b
+        RecInt::copy(tmp, c);
+        RecInt::addmul(tmp, a, b);
+        RecInt::mod_n(r, tmp, p);
         return r;
     }
 
@@ -213,18 +215,18 @@ namespace Givaro
     inline typename MOD::Element& MOD::maxpy
     (Element& r, const Element& a, const Element& b, const Element& c) const
     {
-        _mul<Element, Compute_t>(r, a, b, _p);
-        sub(r, c, r);
-        return r;
+        Element ab; // r may be c
+        _mul<Element, Compute_t>(ab, a, b, _p);
+        return sub(r, c, ab);
     }
 
     TMPL
     inline typename MOD::Element&  MOD::axmy
     (Element& r, const Element& a, const Element& b, const Element& c) const
     {
-        _mul<Element, Compute_t>(r, a, b, _p);
-        subin(r, c);
-        return r;
+        Element ab; // r may be c
+        _mul<Element, Compute_t>(ab, a, b, _p);
+        return sub(r, ab, c);
     }
 
     template<typename E, typename C, DIFF_RECINT>
@@ -243,9 +245,11 @@ namespace Givaro
     template<typename E, typename C, SAME_RECINT>
     E& _maxpyin (E& r, const E& a, const E& b, const E& p)
     {
+        E ab; // r may be a or b: read them before r is negated
+        RecInt::mul(ab, a, b);
         if (r == 0) RecInt::reset(r);
         else RecInt::sub(r, p, r);
-        RecInt::addmul(r, a, b);
+        RecInt::add(r, ab);
         RecInt::mod_n(r, p);
         if (r == 0) RecInt::reset(r);
         else RecInt::sub(r, p, r);
